@@ -48,6 +48,15 @@ CHECKS = {
               "segment at least once plus box sets and robust float cases.  Outside the lattice the claim is "
               "sampling only."),
         ref="DESIGN.md section 5 / C15"),
+    "C18": dict(
+        technique="runtime monitoring: one independent defining relation per helper, evaluated on generated poses",
+        text=("Each helper named in the statement is run on 7e3 (quick) / 4.8e5 (thorough) generated cases (frames "
+              "and mirror planes off-origin and rotated, |p| <= 10, angles up to pi-1e-3 with boundary classes) and "
+              "its defining relation is checked with an oracle that never calls the helper's own code path "
+              "(reflection in local coordinates, geodesic midpoint, z-axis through target, plane residuals, metric "
+              "laws, relative-pose norm, exact step amounts, evenly spaced path, exp(twist) onto the goal, analytic "
+              "Jacobians, unit norms, congruence modulo 2*pi)."),
+        ref="DESIGN.md section 5 / C18"),
     "C20": dict(
         technique="runtime monitoring: totality + stdout capture + parse-back oracle over generated objects",
         text=("disp is run on generated objects of every listed kind with stdout captured; the monitor asserts no "
